@@ -256,6 +256,72 @@ def lib_dirname(ip, st, pos, kws):
     return [(st, Opaque(T("(%s %s)" % (f, ip.key_term(pos[0]).s), "Key")))]
 
 
+# ---- strings as paths.  os.path is posixpath (DESIGN: the checks run on Linux): os.sep == "/" and isabs(p) is
+# p.startswith("/"); join and dirname are functions of their arguments (uninterpreted)
+def str_operand(ip, st, v, what):
+    """a value used as a string: Str / symbolic string as they are; a context item must BE a string (obligation at the use;
+    anything else -- TypeError or the object's own operator -- is out of the model), it is then the string it embeds"""
+    from .sym import Str, ValCell
+    if isinstance(v, Str) or (isinstance(v, Opaque) and v.sort == "Key"):
+        return v
+    if (isinstance(v, Opaque) and v.sort == "Val") or (isinstance(v, Ref) and isinstance(st.heap.get(v.cid), ValCell)):
+        from .dicts import dterm, val_is_string, val_as_key_term
+        t = dterm(ip, st, v)
+        isstr = val_is_string(ip, t)
+        if not ip.spec_mode and not ip.known(st, isstr):
+            ip.emit("safety", "operand of %s is a string" % what, st, isstr)
+            st.assume(isstr)
+        return Opaque(val_as_key_term(ip, t))
+    raise U("string expected for %s, got %r" % (what, v))
+
+
+def key_startswith(ip, k, prefix):
+    f = ip.reg.ufun("kstartswith", ["Key", "Key"], "Bool")
+    return T("(%s %s %s)" % (f, k.s, prefix.s), "Bool")
+
+
+def lib_isabs(ip, st, pos, kws):
+    ip.assumptions.add("library contract (tier A): os.path is posixpath: os.sep == '/', isabs(p) == p.startswith('/'); "
+                       "os.path.join / dirname are functions of their arguments")
+    k = ip.key_term(str_operand(ip, st, pos[0], "os.path.isabs"))
+    return [(st, Bool(key_startswith(ip, k, ip.reg.key("/"))))]
+
+
+def path_join_term(ip, parts):
+    f = ip.reg.ufun("path_join", ["Key", "Key"], "Key")
+    r = parts[0]
+    for p in parts[1:]:
+        r = T("(%s %s %s)" % (f, r.s, p.s), "Key")
+    return r
+
+
+def lib_path_join(ip, st, pos, kws):
+    """os.path.join(a, b, c) == join(join(a, b), c)"""
+    if not pos:
+        raise U("os.path.join()")
+    ip.assumptions.add("library contract (tier A): os.path is posixpath: os.sep == '/', isabs(p) == p.startswith('/'); "
+                       "os.path.join / dirname are functions of their arguments")
+    parts = [ip.key_term(str_operand(ip, st, p, "os.path.join")) for p in pos]
+    return [(st, Opaque(path_join_term(ip, parts)))]
+
+
+def symstr_method(ip, st, recv, name, pos, kws):
+    """methods of a symbolic string that are plain functions of it"""
+    from .sym import Str
+    if name == "startswith" and len(pos) == 1 and (isinstance(pos[0], Str) or (isinstance(pos[0], Opaque) and pos[0].sort == "Key")):
+        return [(st, Bool(key_startswith(ip, recv.t, ip.key_term(pos[0]))))]
+    if name == "replace" and len(pos) == 2 and all(isinstance(p, Str) or (isinstance(p, Opaque) and p.sort == "Key") for p in pos):
+        f = ip.reg.ufun("kreplace", ["Key", "Key", "Key"], "Key")
+        return [(st, Opaque(T("(%s %s %s %s)" % (f, recv.t.s, ip.key_term(pos[0]).s, ip.key_term(pos[1]).s), "Key")))]
+    return None
+
+
+def symstr_tail(ip, k, n):
+    """s[n:] of a symbolic string, n a non-negative literal"""
+    f = ip.reg.ufun("ktail", ["Key", "Int"], "Key")
+    return Opaque(T("(%s %s %d)" % (f, k.s, n), "Key"))
+
+
 def file_method(ip, st, f, name, pos):
     """methods of a ghost file object: a text file is a one-element content list holding its text"""
     lv = need_fs(ip.reg)
@@ -276,6 +342,8 @@ def file_method(ip, st, f, name, pos):
 
 
 LIB = {("os.path", "exists"): lib_path_exists, ("os.path", "dirname"): lib_dirname, ("os", "makedirs"): lib_noop_none,
+       ("os.path", "isabs"): lib_isabs, ("os.path", "join"): lib_path_join,
+       ("os", "sep"): __import__("pyvc.sym", fromlist=["Str"]).Str("/"),          # a constant, not a function (posix)
        ("itertools", "islice"): lib_islice, ("copy", "deepcopy"): lib_deepcopy, "deepcopy": lib_deepcopy,
        ("copy", "copy"): lambda ip, st, pos, kws: [(st, _deep(ip, st, pos[0]))],        # a new top-level object, NOT a deep copy
        ("pickle", "dump"): lib_pickle_dump, "pickle.dump": lib_pickle_dump,
